@@ -29,7 +29,10 @@ ASSUMPTIONS = [
     "cardinal ballots score every project with a non-negative score",
     "definitions as in DESIGN §5 C14 (weak inequalities, alpha = pointwise minimum of the group)",
 ]
-TRUSTED = ["Equal Shares => EJR-up-to-one/any is tested on generated elections, not proved (stated as mes_EJR_x_FullStatement)"]
+TRUSTED = ["Equal Shares => EJR-up-to-any (Cost_Sat) / EJR, hence up-to-one (Cardinality_Sat) is proved on the models MES.run and JR.Satisfies "
+           "(Properties/C14Mes.lean: mes_EJR_any_cost, mes_EJR_cardinality, mes_EJR_one_cardinality, mes_EJR_x; positive costs, tie-breaking "
+           "function returning a non-empty list of tied projects); the run of the library is tied to MES.run by C02, and (E) tests the clause "
+           "on the library's own outcomes"]
 
 KEYS = ["core", "core_any", "core_one", "sEJR", "EJR", "EJR_any", "EJR_one", "PJR", "PJR_any", "PJR_one"]
 UP = {"core": None, "core_any": "any", "core_one": "one", "sEJR": None, "EJR": None, "EJR_any": "any", "EJR_one": "one",
